@@ -44,11 +44,13 @@ CLAIMED = {
             'positions; with_grouping_complete for LICENSE WITH LICENSE triples; the string level (layout, case, known names) '
             'rests on the correspondence: all token strings <= 5/6 under both tokenizers and generated layouts over random tables.',
             'String-level completeness (parse_valid_string) is not a Coq theorem yet; see DESIGN.md.', 'DESIGN.md section 4 C02'),
-    'C03': ('Coq proof (no foreign exception from parse / validate for every table, flags and string; accepted token sequences '
-            'are well formed: allowed adjacencies, balanced parentheses, non-empty; stray WITH refused; blank -> None) + '
-            'exhaustive token strings x 8 flag combinations, malformed stream, position oracle',
-            'Theorems over the whole parse model (tokenizers, unknown merge, WITH grouping, strict checks, boolean parser). '
-            'The position clause (error_located) is decided by the oracle on the implementation, not by a theorem.',
+    'C03': ('Coq proof, full statement on the model: no foreign exception from parse / validate for every table, flags and string; '
+            'accepted token sequences are well formed (allowed adjacencies, balanced parentheses, non-empty); stray WITH refused; '
+            'blank -> None; a parse error carries no token or points at a run of consecutive words of the text (position = start of '
+            'the first, token string made of them) + exhaustive token strings x 8 flag combinations, malformed stream, position oracle',
+            'Theorems over the whole parse model (tokenizers, unknown merge, WITH grouping, strict checks, boolean parser); the '
+            'location clause (parse_error_located, Proofs/Located.v) reuses the accounting relation of C01, which carries positions '
+            'and strings, and a case analysis of where the boolean parser takes the token of its errors from.',
             'A single dangling operator at the end is outside the claim.', 'DESIGN.md section 4 C03'),
     'C12': ('Coq proof, full statement on the model: strict accepts iff non-strict accepts and roles are right, equal results; otherwise '
             'error 101/102 at the first offending license; non-strict parse() of two tables with the same keys and aliases gives the '
